@@ -60,9 +60,11 @@ func (h *TwoPartyHandler) Listen() <-chan *Message {
 }
 
 func (h *TwoPartyHandler) Stop() {
+	// nothing to do if the protocol has already finished or aborted
 	if h.err != nil || h.result != nil {
-		h.abort(errors.New("aborted by user"))
+		return
 	}
+	h.abort(errors.New("aborted by user"))
 }
 
 func (h *TwoPartyHandler) String() string {
